@@ -339,3 +339,14 @@ Definition event_vector (x : state) (tr : transition) (x' : state) : list bool :
     ev_deliver x tr x'; ev_transport_release x tr x'; ev_stores x tr x'; ev_clock x tr x'; ev_transit_release x tr x'; transit_side_b tr x'; transit_claim_b tr x' ].
 
 End Ev.
+
+(* C11, last sentence: a dispatch (IDLE -> WORKING of an AGV) of a job that is not ready for pickup in the state it is applied in;
+   scan over a micro-log, each entry against the post-state of the one before (readiness does not read the clock) *)
+Definition unready_dispatch (i : inst) (x : state) (tr : transition) : bool :=
+  match tr_new tr, tr_job tr with
+  | NT TWorking, Some j => match nth_error (s_jobs x) j with
+                           | Some jb => match is_ready i x j jb with Ok false => true | _ => false end
+                           | None => false end
+  | _, _ => false end.
+Fixpoint scan_unready (i : inst) (x : state) (lg : list (transition * state)) : bool :=
+  match lg with [] => false | (tr, y) :: r => unready_dispatch i x tr || scan_unready i y r end.
